@@ -55,7 +55,7 @@ def meta(rnd, i):
 
 def gen_corr(rnd, i):
     t = rnd.choice(["event_count", "value_count", "temporal", "temporal_ordered", "value_sum", "value_avg", "value_percentile", "value_median"])
-    c = {"type": t, "rules": ["rule_a", "rule_b"][: rnd.randint(1, 2)], "timespan": rnd.choice(["5m", "1h", "30s", "2d", "1w", "1M", "1y"])}
+    c = {"type": t, "rules": rnd.choice([["rule_a"], ["rule_b"], ["rule_a", "rule_b"], ["rule_b", "rule_a"], ["rule_c", "rule_a", "rule_b"]]), "timespan": rnd.choice(["5m", "1h", "30s", "2d", "1w", "1M", "1y"])}
     if rnd.random() < 0.8: c["group-by"] = rnd.sample(["user", "host", "src"], 2)
     if rnd.random() < 0.4: c["generate"] = True
     if rnd.random() < 0.4: c["aliases"] = {"user": {"rule_a": "u1", "rule_b": "u2"}}
@@ -311,6 +311,17 @@ def plain_section(sec, skip=("condition",)):
         return {"junk": str(e)}
 
 
+def convert_corr(doc):
+    """the correlation rule document converted together with the rules it refers to (correlation queries show the reference order)"""
+    from sigma.collection import SigmaCollection
+    from sigma.backends.test import TextQueryTestBackend
+    refd = [{"title": n, "name": n, "logsource": {"category": "c"}, "detection": {"sel": {"f": n}, "condition": "sel"}} for n in ("rule_a", "rule_b", "rule_c")]
+    try:
+        return TextQueryTestBackend().convert(SigmaCollection.from_dicts(refd + [copy.deepcopy(doc)]))
+    except Exception as e:
+        return "ERR:" + outcome_of_exception(e)
+
+
 def run_impl(case):
     import yaml
     from sigma.rule import SigmaRule
@@ -370,6 +381,8 @@ def run_impl(case):
         out["yaml_fixed_point"] = obj3.to_dict() == d1
         if case["kind"] == "rule":
             out["q1"], out["q2"], out["q3"] = convert(cls.from_dict(copy.deepcopy(srcdoc))), convert(obj2), convert(obj3)
+        if case["kind"] == "corr":
+            out["q1"], out["q2"], out["q3"] = convert_corr(srcdoc), convert_corr(d1), convert_corr(yaml.safe_load(y))
         if case["kind"] == "transformed":
             from sigma.backends.test import TextQueryTestBackend
             from sigma.processing.pipeline import ProcessingPipeline as PP
@@ -575,6 +588,8 @@ def decide(case, impl):
         return Verdict("violation", f"{case['kind']}: to_dict(from_dict(to_dict(x))) differs from to_dict(x) in {impl.get('diff')} :: {doc.get('detection', doc)}", nt, key, finding=fid, tags=tuple(tags))
     if not impl["yaml_fixed_point"]:
         return Verdict("violation", f"{case['kind']}: YAML dump/load changes the dict form :: {doc.get('detection', doc)}", nt, key, finding=fid, tags=tuple(tags))
+    if case["kind"] == "corr" and not (impl["q1"] == impl["q2"] == impl["q3"]):
+        return Verdict("violation", f"correlation rule converts to {impl['q1']} but its serialised form to {impl['q2']} / via YAML {impl['q3']} :: {doc['correlation']}", nt, key, finding=fid, tags=tuple(tags))
     if case["kind"] == "rule" and not (impl["q1"] == impl["q2"] == impl["q3"]):
         return Verdict("violation", f"rule converts to {impl['q1']} but its serialised form to {impl['q2']} / via YAML {impl['q3']} :: {doc['detection']}", nt, key, finding=fid, tags=tuple(tags))
     return Verdict("ok", "", nt, key, tags=tuple(tags))
